@@ -42,8 +42,12 @@ fn val(s: &str) -> Result<Variant, VariantError> {
                 } else {
                     return Err(VariantError::Overflow);
                 }
-                value = (value * 10.0_f64.powi(fraction_power) + ((c as u8) - b'0') as f64)
-                    / 10.0_f64.powi(fraction_power);
+                let scale = 10.0_f64.powi(fraction_power);
+                let scaled = value * scale;
+                // a digit so far behind the point that the value cannot be scaled up to it does not change a DOUBLE
+                if scaled.is_finite() {
+                    value = (scaled + ((c as u8) - b'0') as f64) / scale;
+                }
             }
         } else if c == ' ' {
             // ignore spaces apparently
@@ -75,6 +79,9 @@ fn val(s: &str) -> Result<Variant, VariantError> {
     // VAL is a DOUBLE function: the value is never re-tagged to the smallest type that fits it
     if state == STATE_INITIAL || state == STATE_SIGN {
         Ok(Variant::VDouble(0.0))
+    } else if !value.is_finite() {
+        // more digits before the point than a DOUBLE can hold
+        Err(VariantError::Overflow)
     } else {
         let x = Variant::VDouble(value);
         if is_positive { Ok(x) } else { x.negate() }
